@@ -1065,6 +1065,10 @@ pub fn run(r: &Run) {
     r.prop("converters", r.tier.pick(10_000, 300_000), || arb_conv(r.tier.pick(600, 2500)), check_conv);
     r.assume(DAEMON_DUMP_RULE);
     r.prop("daemon-table-dump", r.tier.pick(6_000, 200_000), arb_daemon_dump, check_daemon_dump);
+    // the records BmpClient::serve writes for real sessions (shared with C18): per-peer headers, Peer Up OPENs and
+    // the Add-Path setting of each record are the daemon's, not generated
+    r.assume(crate::props::c18e::RULE);
+    r.prop("bmp-station", r.tier.pick(1_500, 50_000), || crate::props::c18e::arb_case(r.tier.pick(16, 28)), crate::props::c18e::check);
 }
 
 pub fn replay(sub: &str, case: &Value) -> Result<CheckResult, String> {
@@ -1074,6 +1078,7 @@ pub fn replay(sub: &str, case: &Value) -> Result<CheckResult, String> {
         "table-dump" => Ok(check_dump(&decode_case(case)?)),
         "converters" => Ok(check_conv(&decode_case(case)?)),
         "daemon-table-dump" => Ok(check_daemon_dump(&decode_case(case)?)),
+        "bmp-station" => crate::props::c18e::replay(case),
         _ => Err(format!("unknown sub-check {sub}")),
     }
 }
